@@ -174,6 +174,8 @@ pub enum ConstE {
     RefNull(bool),
     /// extended-const: a valid expression the IR cannot represent (C03 only)
     ExtAdd(i32, i32),
+    /// `<field exprs> struct.new $t`: a GC aggregate whose initialiser holds several references
+    StructNew(u32, Vec<ConstE>),
 }
 impl ConstE {
     pub fn enc(&self) -> wasm_encoder::ConstExpr {
@@ -190,6 +192,32 @@ impl ConstE {
             } else {
                 wasm_encoder::HeapType::EXTERN
             }),
+            ConstE::StructNew(t, fields) => {
+                let mut bytes = vec![];
+                for f in fields {
+                    let ins = match f {
+                        ConstE::I32(v) => Ins::I32Const(*v),
+                        ConstE::I64(v) => Ins::I64Const(*v),
+                        ConstE::GlobalGet(g) => Ins::GlobalGet(*g),
+                        ConstE::RefFunc(x) => Ins::RefFunc(*x),
+                        other => panic!("harness: struct field initialiser {:?}", other),
+                    };
+                    encode_ins(&[ins], &mut bytes);
+                }
+                // struct.new $t = 0xfb 0x00 typeidx
+                bytes.extend_from_slice(&[0xfb, 0x00]);
+                let mut v = *t;
+                loop {
+                    let b = (v & 0x7f) as u8;
+                    v >>= 7;
+                    if v == 0 {
+                        bytes.push(b);
+                        break;
+                    }
+                    bytes.push(b | 0x80);
+                }
+                wasm_encoder::ConstExpr::raw(bytes)
+            }
             ConstE::ExtAdd(a, b) => {
                 let mut bytes = vec![];
                 encode_ins(
@@ -221,6 +249,14 @@ impl ConstE {
                 wasmparser::RefType::EXTERNREF
             }),
             ConstE::ExtAdd(..) => panic!("harness: ExtAdd has no InitExpr form"),
+            ConstE::StructNew(t, fields) => {
+                let mut v: Vec<InitInstr> = vec![];
+                for f in fields {
+                    v.extend(f.to_init().exprs);
+                }
+                v.push(InitInstr::StructNew(wirm::ir::id::TypeID(*t)));
+                return InitExpr::new(v);
+            }
         };
         InitExpr::new(vec![i])
     }
@@ -251,6 +287,19 @@ impl ConstE {
                 } => Ok(ConstE::RefNull(false)),
                 _ => Err(format!("refnull {:?}", hty)),
             },
+            [fields @ .., O::StructNew { struct_type_index }, O::End] => {
+                let mut v = vec![];
+                for f in fields {
+                    v.push(match f {
+                        O::I32Const { value } => ConstE::I32(*value),
+                        O::I64Const { value } => ConstE::I64(*value),
+                        O::GlobalGet { global_index } => ConstE::GlobalGet(*global_index),
+                        O::RefFunc { function_index } => ConstE::RefFunc(*function_index),
+                        other => return Err(format!("struct field {:?}", other)),
+                    });
+                }
+                Ok(ConstE::StructNew(*struct_type_index, v))
+            }
             other => Err(format!("{:?}", other)),
         }
     }
